@@ -327,6 +327,10 @@ def run(chk):
                 elif kind != "original":
                     for un in (0, 1):
                         a, b = base_runs[un], runs[un]
+                        if a["timeout"] or b["timeout"]:   # twice over the watchdog limit: inconclusive (termination is C14's clause)
+                            chk.inconclusive += 1
+                            chk.harness_errors.append("gm2calc.x exceeded the watchdog limit twice (%s): inconclusive" % fmt)
+                            continue
                         same = a["exit"] == b["exit"] and a["stdout"] == b["stdout"] and not b["signal"] and not b["timeout"]
                         chk.add_cell("%s|layout-invariance|%s" % (fmt, "uncertainty" if un else "amu"), 1, 0 if same else 1)
                         if not same:
